@@ -119,7 +119,7 @@ pub(crate) async fn finish<A: Actor>(
         exit = ActorExit::Failed(error);
     }
 
-    drop(receiver);
+    receiver.close();
     if let Err(error) = actor.post_stop(myself, state).await
         && matches!(exit, ActorExit::Stopped)
     {
